@@ -1,12 +1,16 @@
 package main
 
 import (
+	"fmt"
 	"github.com/glowlabs-org/gca-backend/glow"
 	"net"
 	"os"
 	"path/filepath"
+	"reflect"
 	"runtime"
 	"strings"
+	"time"
+	"unsafe"
 	"verifh/vsched"
 
 	"github.com/ethereum/go-ethereum/crypto"
@@ -93,4 +97,58 @@ func spinWitness(dump string) (string, string, bool) {
 		}
 	}
 	return "", "", false
+}
+
+// hiddenState renders every field of a value (unexported ones included) in a form that does not depend on the
+// absolute clock: time stamps become ages relative to now. Used as part of a search's state key so that two
+// histories are merged only if the implementation, too, is in the same state - a field the reference model does
+// not know about (a cursor, a cache, a flag) keeps them apart.
+func hiddenState(ptr interface{}, now time.Time) string {
+	var sb strings.Builder
+	var walk func(v reflect.Value, depth int)
+	walk = func(v reflect.Value, depth int) {
+		if depth > 6 {
+			return
+		}
+		if v.Type() == reflect.TypeOf(time.Time{}) {
+			t := reflect.NewAt(v.Type(), unsafe.Pointer(v.UnsafeAddr())).Elem().Interface().(time.Time)
+			if t.IsZero() {
+				sb.WriteString("t0 ")
+			} else {
+				fmt.Fprintf(&sb, "t%d ", int64(now.Sub(t)))
+			}
+			return
+		}
+		switch v.Kind() {
+		case reflect.Struct:
+			if n := v.Type().Name(); strings.Contains(n, "Mutex") || strings.Contains(n, "WaitGroup") {
+				return
+			}
+			sb.WriteString("{")
+			for i := 0; i < v.NumField(); i++ {
+				walk(v.Field(i), depth+1)
+			}
+			sb.WriteString("}")
+		case reflect.Slice, reflect.Array:
+			fmt.Fprintf(&sb, "[%d:", v.Len())
+			for i := 0; i < v.Len(); i++ {
+				walk(v.Index(i), depth+1)
+			}
+			sb.WriteString("]")
+		case reflect.Int, reflect.Int8, reflect.Int16, reflect.Int32, reflect.Int64:
+			fmt.Fprintf(&sb, "%d ", v.Int())
+		case reflect.Uint, reflect.Uint8, reflect.Uint16, reflect.Uint32, reflect.Uint64, reflect.Uintptr:
+			fmt.Fprintf(&sb, "%d ", v.Uint())
+		case reflect.Bool:
+			fmt.Fprintf(&sb, "%v ", v.Bool())
+		case reflect.String:
+			fmt.Fprintf(&sb, "%q ", v.String())
+		case reflect.Ptr:
+			if !v.IsNil() {
+				walk(v.Elem(), depth+1)
+			}
+		}
+	}
+	walk(reflect.ValueOf(ptr).Elem(), 0)
+	return sb.String()
 }
